@@ -4,6 +4,7 @@
 mod exec;
 mod model;
 mod scenario;
+mod shapes;
 
 use simkit::driver::{main_cli, Engine, RunOutcome, Tier};
 use simkit::json::Json;
